@@ -337,7 +337,7 @@ def _elem_types(body):
             if x and x[0] == "call" and len(x[1]) > 2:
                 ta = x[1][2]
                 for t in (ta if isinstance(ta, (tuple, list)) else [ta]):
-                    types.add(str(t))
+                    types.add(str(t).replace("std::", ""))
             if x and x[0] == "cast":
                 types.add(str(x[2]).replace("const ", "").replace(" *", "").replace("*", "").strip())
             for y in x:
@@ -422,4 +422,115 @@ def rule_distinct_arms(rep, fb, floor=300, name="FAMILY.distinct-arms"):
                 r.check(not dup, key, "%s:%d" % (f["file"], s[-1]), "%s: the dispatch chain at line %d tests %s more than once" % (f["qual"], s[-1], str(dup[0])[:120] if dup else ""),
                         detail="all tests distinct")
         cs.each_block_cont(f["body"], onblock)
+    return r.done()
+
+
+# ------------------------------------------------------------------------------------------------
+# L-7  running-offset fills: position counter advanced by exactly the length just written, total = sum of the same lengths
+
+def _norm_len(e, alias):
+    """normal form of a per-operand length expression: smart-pointer plumbing, casts, class qualifiers and line numbers dropped;
+    a pointer obtained by dynamic_cast of the loop operand is the operand"""
+    h = e[0]
+    if h in ("deref", "addr"):
+        return _norm_len(e[1], alias)
+    if h in ("cast", "narrow"):
+        return _norm_len(e[3], alias)
+    if h == "mcall":
+        if e[1] == "get" and not e[4]:
+            return _norm_len(e[3], alias)
+        return ("m", e[1], _norm_len(e[3], alias), tuple(_norm_len(a, alias) for a in e[4]))
+    if h == "var":
+        return ("var", alias.get(e[1], e[1]))
+    if h == "bin":
+        return ("bin", e[1], _norm_len(e[2], alias), _norm_len(e[3], alias))
+    if h == "idx":
+        return ("idx", _norm_len(e[1], alias), _norm_len(e[2], alias))
+    return _noline(e)
+
+
+def rule_fill_accumulate(rep, fb, floor=20, name="PAIR.fill-accumulate"):
+    r = rep.rule(name, "in a loop that appends operands into one output buffer through `*_fill*` kernels at a running position counter: (a) the counter passed as the kernel's `*offset` parameter is advanced in the same arm, "
+                 "after the call; (b) it is advanced by exactly the `length` the kernel was told to write; (c) the buffer's total (accumulated in the sizing loop over the same operands) adds the same per-operand length", floor=floor)
+    api = cs.kernel_api(fb)
+    for f in fb.lib_funcs(inst=False):
+        loops = find_all(f["body"], lambda k: k[0] in ("foreach", "for"))
+        if not loops:
+            continue
+        # sizing accumulations anywhere in the function: total += E
+        totals = {}
+        for a in find_all(f["body"], lambda k: k[0] == "aug" and k[1] == "+" and k[2][0] == "var" and k[2][1].startswith("total")):
+            totals.setdefault(a[2][1], []).append(a)
+        cnt = {}
+        for lp in loops:
+            body = lp[4] if lp[0] == "foreach" else lp[2]
+            # nested loops are visited on their own
+            opvar = lp[1] if lp[0] == "foreach" else None
+
+            def onblock(stmts, cont, f=f, lp=lp, opvar=opvar):
+                alias = {}
+                # aliases from enclosing `if (X* raw = dynamic_cast<X*>(operand.get()))`
+                for pb, pi, pk in cont:
+                    st = pb[pi]
+                    if st[0] == "if" and st[1][0] == "declcond":
+                        src = {v[1] for v in find_all(st[1][3] or (), lambda m: m[0] == "var")}
+                        if opvar and opvar in src:
+                            alias[st[1][1]] = opvar
+                for i, s in enumerate(stmts):
+                    if s[0] in ("foreach", "for", "while"):
+                        continue
+                    for c in find_all(tuple(cs.head_exprs(s)), lambda k: k[0] == "call" and k[1][0] == "fn" and "fill" in str(k[1][1]).lower() and str(k[1][1]) in api):
+                        ov = api[c[1][1]]["overloads"]
+                        names = ov[0][0]
+                        args = c[2]
+                        if len(names) != len(args):
+                            continue
+                        lenarg = None
+                        for nme, a in zip(names, args):
+                            if nme == "length":
+                                lenarg = a
+                        for nme, a in zip(names, args):
+                            if not nme.endswith("offset") or a[0] != "var":
+                                continue
+                            ctr = a[1]
+                            k0 = (c[1][1], ctr)
+                            cnt[k0] = cnt.get(k0, 0) + 1
+                            key = "%s#%s#%s#%d" % (f["qual"], c[1][1].replace("kernel::", ""), ctr, cnt[k0])
+                            where = "%s:%d" % (f["file"], c[-1])
+                            incs = [t for t in stmts[i + 1:] if t[0] == "aug" and t[1] == "+" and t[2] == ("var", ctr)]
+                            if not incs:
+                                # the increment may sit after the if-chain, at loop-body level
+                                for pb, pi, pk in cont:
+                                    incs += [t for t in pb[pi + 1:] if t[0] == "aug" and t[1] == "+" and t[2] == ("var", ctr)]
+                                    if pb is body:
+                                        break
+                            if not incs:
+                                r.fail(key, where, "%s: %s writes at position `%s` but the arm never advances `%s` afterwards - the next operand overwrites this one" % (f["qual"], c[1][1], ctr, ctr))
+                                continue
+                            inc = _norm_len(incs[0][3], alias)
+                            if lenarg is not None and _norm_len(lenarg, alias) != inc:
+                                r.fail(key, where, "%s: %s is told to write `length` = %s at position `%s`, but `%s` is then advanced by a different amount (line %d)"
+                                       % (f["qual"], c[1][1], str(_norm_len(lenarg, alias))[:80], ctr, ctr, incs[0][-1]))
+                                continue
+                            # (d) complex targets are addressed in scalar units (two per item): the amount added to the counter is doubled first
+                            targs = c[1][2] if len(c[1]) > 2 and isinstance(c[1][2], (tuple, list)) else ()
+                            if targs and str(targs[-1]).replace("std::", "").startswith("complex") and incs[0][3][0] == "var":
+                                iv = incs[0][3][1]
+                                doubled = [t for t in stmts[i + 1:] if t[0] == "assign" and t[1] == ("var", iv) and t[2][0] == "bin" and t[2][1] == "*"
+                                           and {repr(_noline(t[2][2])), repr(_noline(t[2][3]))} == {repr(("var", iv)), repr(("const", 2))}]
+                                if not doubled:
+                                    r.fail(key + "#units", where, "%s: %s fills a complex buffer (addressed in scalar units, two per item) but `%s` is not doubled before `%s` is advanced by it - later operands land too early"
+                                           % (f["qual"], c[1][1], iv, ctr))
+                                    continue
+                            # (c) the sizing loop adds the same per-operand amount
+                            okc = True
+                            tot = None
+                            if ctr.endswith("_so_far"):
+                                stem = ctr[:-len("_so_far")]
+                                tot = "total_" + stem
+                            if tot and tot in totals:
+                                okc = any(_norm_len(t[3], {}) == inc for t in totals[tot])
+                            r.check(okc, key, where, "%s: `%s` is advanced by %s per operand but the sizing loop adds a different amount to `%s`" % (f["qual"], ctr, str(inc)[:80], tot),
+                                    detail="advanced by the written length; total adds the same")
+            cs.each_block_cont(body, onblock)
     return r.done()
